@@ -715,6 +715,11 @@ def run(tier):
               'the rendering written afterwards is empty or incomplete, '
               'while the other renderings are complete')
     chk.guard(rule_r10, chk, prog)
+    from .. import depthrec
+    chk.guard(depthrec.report, chk, prog, 'C07.R11',
+              'no function of the tree core that renders expressions recurses over the nesting depth (directly, through helpers, generators, tuple comparison, deepcopy or the generic pickler)',
+              [('nodeio', 'write_smtlib'), ('nodeio', 'write_smtlib_for_checking'), ('nodeio', 'write_smtlib_to_file'), ('nodeio', 'write_smtlib_to_str'), ('nodeio', '__write_smtlib'), ('nodeio', '__write_smtlib_pretty'), ('nodeio', '__write_smtlib_str')],
+              'the renderers raise RecursionError on deeply nested expressions which the reader parses without difficulty: rendering and re-parsing is no longer the identity there')
     extra = None
     if tier == 'thorough':
         from .. import selftest
